@@ -31,6 +31,17 @@ static int *ovec_alloc(size_t n) { int *p = malloc(n * sizeof(int)); __CPROVER_a
 static void marks_resize(struct marks *m, size_t n) { m->first = malloc(n * sizeof(int)); m->second = malloc(n * sizeof(int)); __CPROVER_assume(m->first != NULL && m->second != NULL); m->n = n; }
 static int *marks_first(struct marks *m, size_t i) { __CPROVER_assert(i < m->n, "marks[i] within the vector"); return m->first + i; }
 static int *marks_second(struct marks *m, size_t i) { __CPROVER_assert(i < m->n, "marks[i] within the vector"); return m->second + i; }
+/* ---- regex::assign: the pattern used by match() must be compiled from  "(?:" + pattern + ")\\z"  (R7: anchored is a checked sink) */
+int g_anch_state; bool g_anch_bad; bool g_are_compiled_from_anchored; bool g_are_set;
+static void anch_lit(char const *s)
+{
+  if(g_anch_state == 0 && s[0] == '(' && s[1] == '?' && s[2] == ':' && s[3] == 0) g_anch_state = 1;           /* non-capturing group opened first */
+  else if(g_anch_state == 2 && s[0] == ')' && s[1] == '\\' && s[2] == 'z' && s[3] == 0) g_anch_state = 3;    /* group closed, then end-of-subject assertion */
+  else g_anch_bad = 1;
+}
+static void anch_pattern(void) { if(g_anch_state == 1) g_anch_state = 2; else g_anch_bad = 1; }
+static void *pcre_compile_anch(void) { g_are_compiled_from_anchored = (g_anch_state == 3 && !g_anch_bad); bool ok; return ok ? (void *)&g_anch_state : 0; }
+static int fullinfo_stub(void) { int r; return r; }
 /* ---- dispatcher: option i matches iff g_opt_match[i]; ghosts record which options were tried */
 #define MAX_OPTS 16
 bool g_opt_match[MAX_OPTS]; unsigned g_opt_n; unsigned g_tried_upto; bool g_tried_after_hit; bool g_hit; unsigned g_hit_at;
@@ -76,6 +87,17 @@ __CPROVER_assigns(verif_thrown, g_exec_called, g_exec_code, g_exec_opts, g_exec_
 __CPROVER_ensures(__CPROVER_return_value ==> (g_exec_called && g_exec_code == d->are && (g_exec_opts & PCRE_ANCHORED) != 0 && g_exec_len == OFF(end) - OFF(begin) && g_exec_rc >= 0))
 __CPROVER_ensures((d->are != 0 && !__CPROVER_return_value) ==> (g_exec_called && g_exec_rc < 0))
 '''),
+    dict(cname='regex_assign_anchored', file=R, locate=lit('void regex::assign(std::string const &pattern,int flags)'), sig='void regex_assign_anchored(void)', throw_ret='',
+         rewrites=[(r'(?s)d\.reset\(new data\(\)\);.*?std::string anchored;', '', 1), (r'anchored\.reserve\([^;]*\);', '', 1),
+                   (r'anchored\s*\+=\s*("(?:[^"\\\\]|\\\\.)*");', r'anch_lit(\1);', 1), (r'anchored\s*\+=\s*pattern;', 'anch_pattern();', 1),
+                   (r'p=pcre_compile\(anchored\.c_str\(\),[^;]*\);', 'void *p = pcre_compile_anch();', 1), (r'd->are = p;', 'g_are_set = 1;', 1),
+                   (r'pcre_fullinfo\(d->are,[^)]*\)', 'fullinfo_stub()', 1)],
+         contract=r'''
+__CPROVER_requires(g_anch_state == 0 && !g_anch_bad && !g_are_set && !verif_thrown)
+__CPROVER_assigns(g_anch_state, g_anch_bad, g_are_compiled_from_anchored, g_are_set, verif_thrown)
+/* whole-string matching rests on the pattern that match() executes being  (?:pattern)\\z : the group makes \\z apply to EVERY top-level alternative */
+__CPROVER_ensures(g_are_set ==> g_are_compiled_from_anchored)
+'''),
     dict(cname='dispatcher_dispatch', file=D, locate=lit('bool url_dispatcher::dispatch(std::string url)'), sig='bool dispatcher_dispatch(void)',
          rewrites=[(r'std::string method;\s*char const \*cmethod = \w;\s*application \*app = d->app;\s*if\(app && app->has_context\(\)\) \{[^}]*\}\s*else \{[^}]*\}', '', 1),
                    (r'd->options\.size\(\)', 'g_opt_n', 1), (r'd->options\[i\]->dispatch\(url,cmethod,app\)', 'option_dispatch(i)', 1)],
@@ -98,6 +120,7 @@ jobs = [
     dict(name='regex_match', props=P, enforce='regex_match', harness=r'''
     struct regex_data d; SYM_BUF(char, s, n, BUF_CAP); g_exec_called = 0; verif_thrown = 0;
     regex_match(&d, s, s + n); VERIF_REACH;'''),
+    dict(name='regex_assign_anchored', props=P, enforce='regex_assign_anchored', harness='g_anch_state = 0; g_anch_bad = 0; g_are_set = 0; verif_thrown = 0; regex_assign_anchored(); VERIF_REACH;'),
     dict(name='dispatcher_dispatch', props=P, enforce='dispatcher_dispatch', harness=r'''
     bool m[MAX_OPTS]; __CPROVER_array_copy(g_opt_match, m); unsigned n; __CPROVER_assume(n <= MAX_OPTS); g_opt_n = n; int k; __CPROVER_assume(k >= 0); g_k = k;
     g_hit = 0; g_tried_after_hit = 0; g_tried_upto = 0;
@@ -108,6 +131,6 @@ UNIT = dict(
     name='routing', pre=PRE, functions=functions, jobs=jobs,
     trusted=['routing: pcre_exec is a stub with the PCRE 8 API contract (rc>=0 => offsets inside the subject, ANCHORED => starts at 0); that the pattern "(?:p)\\z" can only match up to the end of the subject is PCRE semantics (assumed)',
              'routing: std::vector<int> ovec and the marks vector are mallocs of exactly the requested number of ints (R8); options[i]->dispatch(...) is an oracle array with at most 16 options (R10)'],
-    not_covered={'C20': ['PCRE itself; regex::assign string assembly; option::matches method filter; mount points, applications_pool, url_mapper and the mapper<->dispatcher round trip over application trees',
+    not_covered={'C20': ['PCRE itself; the first (un-anchored) compile in regex::assign; option::matches method filter; mount points, applications_pool, url_mapper and the mapper<->dispatcher round trip over application trees',
                          'dispatcher with more than 16 options (oracle array bound)']},
 )
